@@ -11,7 +11,7 @@ CLAIMED = {
          'Decoding contract (returns, final, feasible, admitted architecture) evaluated at run time on every vector of the declared space of every corpus graph for both encoders (bounded, exhaustive per graph). Proved for all inputs: the kernels on the decode path that are within reach (ApplyIterSpec.__contains__, _get_all_des_var_values, vector clamps of the connection encoders, the existence-infeasibility mask and variable index ranges of _get_des_vars, three segments of GraphProcessor.get_graph, the neighbourhood generator of the fast encoder, the analyzer frame clauses).',
          NOTE, TECH),
  'C02': ('other',
-         'Proved for all graphs: closure and minimality of the confirmed-node traversal, exactness of get_non_confirmed_nodes, and the edge/node bookkeeping of get_mod_apply_selection_choice up to its incompatibility step (origin->option edges added, choice node and unselected option edges removed, zero-option marker). Instance = closure, order independence and the feasible-leaf set are contracts on get_for_apply_selection_choice evaluated along all choice orders of the corpus (bounded); the recursive derived-edge walks are assumed callees.',
+         'Proved for all graphs: closure and minimality of the confirmed-node traversal, exactness of get_non_confirmed_nodes, get_deriving_in_edges, the exact reporting rule of get_confirmed_incompatibility_edges, and the edge/node bookkeeping of get_mod_apply_selection_choice up to its incompatibility step (origin->option edges added, choice node and unselected option edges removed, zero-option marker). Instance = closure, order independence and the feasible-leaf set are contracts on get_for_apply_selection_choice evaluated along all choice orders of the corpus (bounded); the recursive derived-edge walks are assumed callees.',
          NOTE, TECH),
  'C03': ('other',
          'Clamp, fixed-vector and activeness kernels of the connection encoders are proved (correct_vector_size/bounds, _correct_is_active); canonical-fixed-point and vector-describes-instance clauses are run-time contracts over the full declared space of every corpus graph (bounded).',
@@ -23,7 +23,7 @@ CLAIMED = {
          'History-independence: after every operation history (length 2 quick / 3 thorough over decode, enumerate, statistics, mutate instance, pickle, fix, free) the processor must be observationally equal to a fresh one (bounded, exhaustive over the history alphabet); frame clauses of the analyzer proved where reached.',
          NOTE, TECH),
  'C06': ('other',
-         'Proved for all graphs: the confirmed-pair test (get_confirmed_incompatibility_edges), the first half of get_mod_nodes_remove_incompatibilities (which nodes go, when the graph is infeasible) and the upstream search get_incompatibility_deriving_nodes (nothing that necessarily derives the target is missed, nothing else is collected). Enforcement, no-over-pruning and infeasible-stays-infeasible are contracts evaluated on every node of the choice tree of the INC corpus (bounded).',
+         'Proved for all graphs: the confirmed-pair test (get_confirmed_incompatibility_edges), the first half of get_mod_nodes_remove_incompatibilities (which nodes go, when the graph is infeasible) and the upstream search get_incompatibility_deriving_nodes (nothing that necessarily derives the target is missed, nothing else is collected) and get_deriving_in_edges (exactly the in-edges that still derive a node given what was removed). Enforcement, no-over-pruning and infeasible-stays-infeasible are contracts evaluated on every node of the choice tree of the INC corpus (bounded).',
          NOTE, TECH),
  'C07': ('other',
          'Activeness/imputation kernel (_correct_is_active, inactive canonical value, get_graph tail) proved; agreement between enumeration, create=True/False and corrected raw vectors is a run-time contract over all vectors of the corpus (bounded).',
@@ -38,19 +38,19 @@ CLAIMED = {
          'Totality/range/fixed-point/onto/listing clauses as run-time contracts for every registry encoder x imputer over the full vector space [-1..n_opts] of enumerated settings (bounded); vector-size and clamp kernels proved.',
          NOTE, TECH),
  'C11': ('other',
-         'Proved for all inputs: get_mod_apply_connection_choice adds exactly the given connections (parallel ones as keyed edges), removes the choice node and exactly the exclusion / tie edges (with get_excluded_edges and get_deriving_edges under their own contracts); the exclusion-pair remapping per existence pattern. Connection sets offered per selection scenario = brute-force valid sets and decoded sets valid for the present connectors are bounded contracts over the CONN corpus.',
+         'Proved for all inputs: get_mod_apply_connection_choice adds exactly the given connections (parallel ones as keyed edges), removes the choice node and exactly the exclusion / tie edges (with get_excluded_edges and get_deriving_edges under their own contracts); the exclusion-pair remapping per existence pattern; ConnectionChoiceNode.validate_conn_edges (edges counted into the matrix of the generator's connector order, foreign connectors rejected, verdict = the generator's validity test, which is proved under C09). Connection sets offered per selection scenario = brute-force valid sets and decoded sets valid for the present connectors are bounded contracts over the CONN corpus.',
          NOTE, TECH),
  'C13': ('other',
          'Proved: the row predicates of get_valid_idx_combinations (non-decreasing / strictly increasing), get_constraint_pre_removed_options (a PERMUTATION is only pruned when unsatisfiable; UNORDERED_NOREPL removes only unreachable indices), linked design-variable propagation of DSG.set_des_var_value. Index functions checked exhaustively on the bound the property names and offered architectures = reference for both encoders (bounded); get_constraint_removed_options stays bounded (draft contract undecided).',
          NOTE, TECH),
  'C14': ('other',
-         'Fast-encoder soundness/onto/valid-unchanged as run-time contracts over the full declared space, plus independence from other processors of the same process (bounded); the neighbourhood generator _iter_values is proved (current value first, every value of the range tried).',
+         'Fast-encoder soundness/onto/valid-unchanged as run-time contracts over the full declared space, plus independence from other processors of the same process (bounded); proved: the neighbourhood generator _iter_values (current value first, every value of the range tried) and one half of _get_selection_choice_is_forced (every later member of a LINKED constraint, in the analyzer order, is forced); its other half (nothing else is forced) is a bounded clause on the constrained corpus.',
          NOTE, TECH),
  'C15': ('other',
          'Proved: fix_des_var / is_fixed / fixed_value bookkeeping, _get_all_des_var_values (fixed values merged in order), _update_comb_fixed_mask (fixed choices keyed by choice index; the stored mask is always the answer for the current fixed choices), frame clauses of the analyzer. fix/free sequences compared with filtering the unfixed enumeration and with a fresh processor (bounded).',
          NOTE, TECH),
  'C16': ('other',
-         'Proved for all inputs: DesignVariableNode.correct_value (clamp, integrality, fraction), DSG.set_des_var_value (stored value in domain, linked nodes clamped to their own range / same relative position), the design-variable value segment and the imputation tail of get_graph. Existence coverage over whole architectures is a run-time contract over the DV corpus (bounded).',
+         'Proved for all inputs: DesignVariableNode.correct_value (clamp, integrality, fraction), DSG.set_des_var_value (stored value in domain, linked nodes clamped to their own range / same relative position), DSG.des_var_nodes (only the first node of a linked set gets a variable, every other node its own), DesVar.__init__ / from_des_var_node (a variable declares exactly the domain of its node), the design-variable value segment and the imputation tail of get_graph. Existence coverage over whole architectures is a run-time contract over the DV corpus (bounded).',
          NOTE, TECH),
  'C17': ('proof',
          'Every function between the metric nodes and the evaluation result (_can_be_objective, _can_be_constraint, _get_metrics, _categorize_metrics, _choose_metric_type, Objective/Constraint.from_metric_node and __init__, DSGEvaluator.evaluate) is under contract; the clauses of the property statement are postconditions and all generated obligations are discharged by z3/cvc5 for all inputs. The link permanent node = exists in every architecture is an assumption corroborated by a bounded run-time contract.',
@@ -59,7 +59,7 @@ CLAIMED = {
          'hash/equality/fingerprint compare Python hash() values: no contract within reach of an SMT-based verifier states or decides them. Bounded only: copy/edit/pickle/export contracts over the corpus, same variables and same mapping for copies and reordered rebuilds; hash-seed sweep with pickled graphs from subprocesses in the thorough tier.',
          NOTE, TECH),
  'C20': ('other',
-         'Proved: SupDSG.initialize_choices (duplicate / unmapped checks), SupDSG.resolve (non-final or infeasible source must raise; mappings applied in order), SupExistenceMapping.resolve (first existing source node decides). SupSelChoiceOptionMapping.resolve and the whole-resolution clauses are run-time contracts over all architectures of the corpus sources (bounded).',
+         'Proved: SupDSG.initialize_choices (duplicate / unmapped checks), SupDSG.resolve (non-final or infeasible source must raise; mappings applied in order), SupExistenceMapping.resolve (first existing source node decides), SupSelChoiceOptionMapping.resolve (inactive source choice takes the None entry, otherwise the entry of the one mapped option wired to the originating node; errors otherwise; the mapping is left as it was). The whole-resolution clauses are run-time contracts over all architectures of the corpus sources (bounded).',
          NOTE, TECH),
 }
 
